@@ -18,7 +18,7 @@ import (
 	"unicode/utf8"
 )
 
-const repoDir = "/repo"
+var repoDir = envOr("VERIF_REPO", "/repo")
 
 var (
 	corpusOnce sync.Once
